@@ -212,7 +212,7 @@ def make_tree(R: str, nodes: list) -> None:
                 with open(p, 'wb') as f:
                     f.write(n[3].encode())
             else:
-                os.symlink(n[2], p)
+                os.symlink(n[2].replace('{R}', R), p)
             made.append(n)
         except OSError:
             continue        # a generated pre-population entry that clashes with an earlier one is dropped
@@ -550,9 +550,31 @@ def expected_tree(spec: dict, op: dict, R: str, before: T.Dict[str, tuple]) -> T
         n = before.get(p)
         return n if n and n[0] == 'f' else None
 
-    def put_file(dst: str, srcp: str, mode) -> bool:
-        n = src_node(srcp)
+    def link_result(srcp: str, n: tuple, mode, follow) -> T.Optional[tuple]:
+        """what installing the symlink `srcp` leaves at its destination: the link itself (same target text; a link has
+        no permissions of its own and its target is never touched) when follow_symlinks is false or the link dangles,
+        else a copy of the file it points to"""
+        tgt = os.path.normpath(os.path.join(os.path.dirname(srcp), n[1]))
+        tn = before.get(tgt)
+        if tn is None and os.path.lexists(tgt):
+            return None                     # points outside the scratch root: not generated
+        if follow is False or tn is None:
+            return ('l', n[1])
+        if tn[0] == 'f':
+            return ('f', want_file_mode(spec, mode, tn[1]), tn[2], tn[3])
+        return None
+
+    def put_file(dst: str, srcp: str, mode, follow=None) -> bool:
+        n = before.get(srcp)
         if n is None:
+            return False
+        if n[0] == 'l':
+            r = link_result(srcp, n, mode, follow)
+            if r is None:
+                return False
+            out[dst] = r
+            return True
+        if n[0] != 'f':
             return False
         out[dst] = ('f', want_file_mode(spec, mode, n[1]), n[2], n[3])
         return True
@@ -587,7 +609,12 @@ def expected_tree(spec: dict, op: dict, R: str, before: T.Dict[str, tuple]) -> T
                     continue
                 out[os.path.join(dst, rel)] = ('f', want_file_mode(spec, e['mode'], n[1]), n[2], n[3])
             else:
-                return None
+                if rel in exf:
+                    continue
+                r = link_result(p, n, e['mode'], e.get('follow'))
+                if r is None:
+                    return None
+                out[os.path.join(dst, rel)] = r
     for e in spec.get('targets', []):
         if not selected(op, e):
             continue
@@ -598,13 +625,13 @@ def expected_tree(spec: dict, op: dict, R: str, before: T.Dict[str, tuple]) -> T
         if not selected(op, e):
             continue
         srcp = S(e['path'], R)
-        if not put_file(os.path.join(dest_of(spec, op, R, e['ip']), os.path.basename(srcp)), srcp, e['mode']):
+        if not put_file(os.path.join(dest_of(spec, op, R, e['ip']), os.path.basename(srcp)), srcp, e['mode'], e.get('follow')):
             return None
     for kind in ('man', 'data'):
         for e in spec.get(kind, []):
             if not selected(op, e):
                 continue
-            if not put_file(dest_of(spec, op, R, e['ip']), S(e['path'], R), e['mode']):
+            if not put_file(dest_of(spec, op, R, e['ip']), S(e['path'], R), e['mode'], e.get('follow') if kind == 'data' else None):
                 return None
     for e in spec.get('emptydirs', []):
         if not selected(op, e):
@@ -689,6 +716,10 @@ def oracle_case(ctx: Ctx, spec: dict, R: str, res: dict) -> None:
                                                   f'{os.path.relpath(p, R)}: got {created[p]} want {n}', case)
                                     break
                         ctx.tag('oracle:exact-checked')
+                        if spec.get('linkcase'):
+                            ctx.tag('oracle:links-exact:' + spec['linkcase']['variant'])
+                    elif spec.get('linkcase'):
+                        ctx.tag('oracle:links-unjudged:' + spec['linkcase']['variant'])
                 # --- the log names everything that was created
                 if st['err'] == 'ok' and not op.get('dry'):
                     named = set(os.path.normpath(l) for l in log_paths(st['log']))
@@ -994,6 +1025,44 @@ def gen_case(rng: random.Random, idx: int, kind: str) -> dict:
         for e in allents:
             if e.get('mode') and e['mode'].get('perms') and any(c in e['mode']['perms'] for c in 'sS'):
                 e['mode'] = dict(e['mode'], perms='rwxr-xr-x')
+    return spec
+
+
+def link_case(rng: random.Random, idx: int) -> dict:
+    """symlink sources installed through every rule kind that has follow_symlinks, pointing at: a sibling installed
+    earlier in the same run, a sibling installed later, an absolute file outside DESTDIR (distinctive mode 0640), a
+    directory, nothing (dangling) -- with and without install_mode, under several umasks"""
+    t0 = 1_500_000_000
+    kind = rng.choice(['data', 'headers', 'subdirs'])
+    variant = rng.choice(['sib-early', 'sib-late', 'abs-out', 'dir', 'dangling'])
+    follow = False if variant == 'dir' or rng.random() < 0.7 else rng.choice([None, True])
+    lmode = rng.choice([None, None, {'perms': 'rwxr-x---'}, {'perms': 'rw-------'}, {'perms': 'rwxrwxrwx'}])
+    smode = rng.choice([None, {'perms': 'rw-r-----'}, {'perms': 'r--r--r--'}])
+    d = rng.choice(['share/app', 'lib', 'include/x y'])
+    target = {'sib-early': 'sib.txt', 'sib-late': 'sib.txt', 'abs-out': '{R}/outside/secret', 'dir': '{R}/outside/dir',
+              'dangling': 'nowhere'}[variant]
+    tree = [['d', 'outside', 0o755], ['f', 'outside/secret', 0o640, f'secret {idx}', t0 + 1], ['d', 'outside/dir', 0o750],
+            ['f', 'outside/dir/inner', 0o600, 'inner', t0 + 2]]
+    spec: dict = {'name': f'links-{idx}', 'clean': True, 'fresh': True, 'umask': rng.choice([0o022, 0o077, 0o027, 0o002, 'preserve']),
+                  'prefix': '{P}/usr', 'tree': tree, 'linkcase': {'kind': kind, 'variant': variant, 'follow': follow}}
+    for k in ('subdirs', 'targets', 'headers', 'man', 'data', 'emptydirs', 'symlinks'):
+        spec[k] = []
+    cf = {'sub': '', 'tag': None}
+    sibmode = rng.choice([0o644, 0o600, 0o755, 0o640])
+    if kind == 'subdirs':
+        tree += [['d', 'src/lt', 0o755], ['f', 'src/lt/sib.txt', sibmode, f'sib {idx}', t0 + 3], ['l', 'src/lt/lnk', target]]
+        spec['subdirs'] = [{'path': '{R}/src/lt', 'ip': jn('{P}/usr', d), 'exclude': None, 'follow': follow, 'mode': lmode, **cf}]
+    else:
+        tree += [['f', 'src/ls/sib.txt', sibmode, f'sib {idx}', t0 + 3], ['l', 'src/ls/lnk', target]]
+        if kind == 'data':
+            sib = {'path': '{R}/src/ls/sib.txt', 'ip': jn(d, 'sib.txt'), 'mode': smode, 'follow': None, **cf}
+            lnk = {'path': '{R}/src/ls/lnk', 'ip': jn(d, 'lnk'), 'mode': lmode, 'follow': follow, **cf}
+        else:
+            sib = {'path': '{R}/src/ls/sib.txt', 'ip': d, 'mode': smode, 'follow': None, **cf}
+            lnk = {'path': '{R}/src/ls/lnk', 'ip': d, 'mode': lmode, 'follow': follow, **cf}
+        spec[kind] = [lnk, sib] if variant == 'sib-late' else [sib, lnk]
+    base_op = {'op': 'install', 'destdir': '{R}/dest', 'ambient': rng.choice(AMBIENT)}
+    spec['ops'] = rng.choice([[base_op], [base_op, dict(base_op)], [base_op, {'op': 'uninstall'}]])
     return spec
 
 
@@ -1308,6 +1377,8 @@ def make_cases(ctx: Ctx) -> T.List[dict]:
         cases.append(gen_case(rng, i, 'nodestdir'))
     for i in range(n // 10):
         cases.append(dotdot_case(rng, i))
+    for i in range(n // 6):
+        cases.append(link_case(rng, i))
     return cases
 
 
